@@ -1,3 +1,6 @@
+\* NOT run by the harness.  Slack = 1 models the present text of edge_betweenness_bin (`Q[:q]`):
+\* TLC is EXPECTED to report NoRaise violated (empty graph, 3 nodes: ValueError) and, with NoRaise
+\* removed, QueueInv violated (G = {1->2}: Q = <<1,2,1>> keeps the initial 0 instead of node 3).
 SPECIFICATION Spec
 CONSTANT N = 3
 CONSTANT Kind = "dir"
